@@ -18,11 +18,12 @@ TRUSTED_BASE = [
     "extraction (ExtrOcamlBasic only) and the OCaml integer driver",
 ]
 ASSUMPTIONS = ["random.randrange / random.shuffle may return any value of their range (that is what 'every outcome' means)"]
-TECHNIQUE = "choice-script model of the traversal + Coq validity predicate and enumeration of all valid orders; exhaustive enumeration of the real code's random outcomes on small inputs compared per script and as sets"
+TECHNIQUE = "choice-script model of the traversal; Coq proof (simulation by a frontier-of-queues relation, potential function for the loop bound) that every script yields a valid order; Coq enumeration of all valid orders; exhaustive enumeration of the real code's random outcomes on small inputs compared per script and as sets"
 LEVEL = "proof"
-LEVEL_TEXT = ("Props/C17.v: the validity predicate and the enumeration of all valid orders are Coq definitions; theorems proved there are listed in the file (the general statements C17_valid / "
-              "C17_exhaustive for all values are NOT yet proved - partial); for every small value the real code's complete outcome set equals the specification's set, script by script equal to the model.")
-LEVEL_NOTE = "Partial: validity/exhaustiveness proved by exhaustive enumeration per generated value, not by a general theorem. Trusted: Coq kernel; Spec/Nondet.v; chooser; extraction and driver."
+LEVEL_TEXT = ("Props/C17.v: C17_valid - for every value, depth limit and script of random choices, whatever the traversal model returns is a valid order (every node once, parents first, "
+              "array elements in index order); C17_loop_terminates; C17_frontier_sound. NOT yet proved in general (partial): exhaustiveness, and the statement for whole queries (wildcard / filter "
+              "selectors also shuffle); for every small value the real code's complete outcome set equals the specification's set of container orders, script by script equal to the model.")
+LEVEL_NOTE = "Partial for exhaustiveness and whole queries (enumeration per generated value). Trusted: Coq kernel; Spec/Nondet.v; Model/NdVisit.v tied script by script; chooser; extraction and driver."
 norm_reply = harness.norm_reply
 
 
